@@ -5,6 +5,7 @@ character codes (`_` = empty string); a list of strings is `,`-separated. A trac
 `<n> <xs> <ys> <zs> <ts> <names> <cols>` (floats as IEEE bit patterns, columns `;`-separated).
 
   operate <track> <expr>                    → <status> <vector|none> <names> <cols> <xs> <ys> <zs>
+  getitem <track> <expr>                    → as `operate` (Track[expr])
   operateseq <track> <expr>,<expr>,…        → as `operate`, for the last statement run (the first failing one)
   rpn <expr>                                → <status> <tokens>        (utils.makeRPN, character level)
   rw special|reflex|unary|funcat|pre <expr> → <status> <string>        (the rewriting steps of __evaluate)
@@ -56,6 +57,9 @@ def voidRes (r : Res Float (List Float)) : Res Float (Option (List Float)) :=
 
 def char? (s : String) : Option Char := s.toNat?.map Char.ofNat
 
+/-- output name of an operator object: `none` = not given (defaults to the first input) -/
+def out? (s : String) (in1 : Str) : Option Str := if s == "none" then some (defaultOut none in1) else (str? s).map (fun o => defaultOut (some o) in1)
+
 /-- prefix token list → tree -/
 def tree? : Nat → List String → Option (Ex × List String)
   | 0, _ => none
@@ -81,6 +85,12 @@ def handle (cmd : String) (args : List String) : String :=
     match track? args with
     | some (tr, [e]) => match str? e with
       | some e => showRes (operate tr e)
+      | none => "bad-request"
+    | _ => "bad-request"
+  | "getitem" =>
+    match track? args with
+    | some (tr, [e]) => match str? e with
+      | some e => showRes (getitemStr tr e)
       | none => "bad-request"
     | _ => "bad-request"
   | "operateseq" =>
@@ -126,25 +136,25 @@ def handle (cmd : String) (args : List String) : String :=
     | _ => "bad-request"
   | "opbin" =>
     match track? args with
-    | some (tr, [o, a, b, out]) => match char? o, str? a, str? b, str? out with
+    | some (tr, [o, a, b, out]) => match char? o, str? a, str? b, (str? a).bind (out? out) with
       | some o, some a, some b, some out => showRes (voidRes (opBin tr o a b out))
       | _, _, _, _ => "bad-request"
     | _ => "bad-request"
   | "opscal" =>
     match track? args with
-    | some (tr, [o, a, s, out]) => match char? o, str? a, float? s, str? out with
+    | some (tr, [o, a, s, out]) => match char? o, str? a, float? s, (str? a).bind (out? out) with
       | some o, some a, some s, some out => showRes (voidRes (opScal tr o a s out))
       | _, _, _, _ => "bad-request"
     | _ => "bad-request"
   | "opscalrev" =>
     match track? args with
-    | some (tr, [o, a, s, out]) => match char? o, str? a, float? s, str? out with
+    | some (tr, [o, a, s, out]) => match char? o, str? a, float? s, (str? a).bind (out? out) with
       | some o, some a, some s, some out => showRes (voidRes (opScalRev tr o a s out))
       | _, _, _, _ => "bad-request"
     | _ => "bad-request"
   | "opfn" =>
     match track? args with
-    | some (tr, [f, a, out]) => match str? f, str? a, str? out with
+    | some (tr, [f, a, out]) => match str? f, str? a, (str? a).bind (out? out) with
       | some f, some a, some out =>
         if isVoidFn f then
           -- `Log.execute` returns nothing
